@@ -87,4 +87,37 @@ impl HelperAttributesForCompareOp {
 //@     |   && h.eq == seen(attrs, kinds, CompareOp::Eq) && h.partial_eq == seen(attrs, kinds, CompareOp::PartialEq) && h.hash == seen(attrs, kinds, CompareOp::Hash)
 //@ end
 }
+verus! {
+// syn::DeriveInput / syn::Data stand-ins: only what build_from_derive_input reads
+#[verifier::external_body]
+pub struct DataStruct { _p: u8 }
+#[verifier::external_body]
+pub struct DataEnum { _p: u8 }
+#[verifier::external_body]
+pub struct DataUnion { _p: u8 }
+pub enum Data { Struct(DataStruct), Enum(DataEnum), Union(DataUnion) }
+pub struct DeriveInput { pub data: Data }
+#[verifier::external_body]
+pub struct ItemStruct { _p: u8 }
+#[verifier::external_body]
+pub struct ItemEnum { _p: u8 }
+#[verifier::external_body]
+pub fn to_item_struct(item: &DeriveInput, data: &DataStruct) -> ItemStruct { unimplemented!() }
+#[verifier::external_body]
+pub fn to_item_enum(item: &DeriveInput, data: &DataEnum) -> ItemEnum { unimplemented!() }
+// C15: both entry points funnel into the same *_core builders, with nested #[derive_ex(..)] attributes enabled:
+// the core builders are given this precondition, so the (verbatim) callers must establish it
+#[verifier::external_body]
+pub fn build_by_item_struct_core(attr: Option<TokenStream>, item: &ItemStruct, kinds: &mut HelperAttributeKinds) -> (r: Result<TokenStream>)
+    requires old(kinds).derive_ex, attr is None ==> true,
+{ unimplemented!() }
+#[verifier::external_body]
+pub fn build_by_item_enum_core(attr: Option<TokenStream>, item: &ItemEnum, kinds: &mut HelperAttributeKinds) -> (r: Result<TokenStream>)
+    requires old(kinds).derive_ex,
+{ unimplemented!() }
+}
+//@ fn item_type.rs build_from_derive_input
+//@   attr #[verus_verify]
+//@   spec r => ensures item.data is Union ==> r is Err
+//@ end
 fn main() {}
